@@ -13,6 +13,7 @@ import time
 
 import dagcase
 import dagmon
+import dagtasks
 
 HERE = os.path.dirname(os.path.abspath(__file__))
 REPO = os.environ.get('VERIF_REPO', '/repo')
@@ -20,6 +21,7 @@ REPO = os.environ.get('VERIF_REPO', '/repo')
 
 def gen_jobs(seed, n):
     rng = random.Random(seed * 7 + 3)
+    out_rng = random.Random(seed * 7 + 5)
     jobs = []
     for i in range(n):
         be = ['fork', 'spawn', 'serial', 'fork'][i % 4]
@@ -36,6 +38,11 @@ def gen_jobs(seed, n):
             ok = [t for t in range(len(c['fl'])) if not (c['fl'][t] & 35) and any(tt == t for tt, _ in c['inst'])]
             if ok:
                 c['fl'][rng.choice(ok)] |= 128
+        # what the task bodies print (real backends capture a worker's stdout/stderr and hand it to the log before the
+        # worker reports): nothing, short lines, many lines, ONE very long line without a line break, whitespace only
+        for t in range(len(c['fl'])):
+            if out_rng.random() < 0.3:
+                c['fl'][t] |= out_rng.randrange(1, 8) << dagtasks.OUT_SHIFT
         jobs.append(dict(index=i, case=c, top=rng.random() < 0.5))
     # a worker that dies at once next to a quick task, more work queued, task monitor ON: the quick task's result ends
     # the first wait, starting the queued work reaps the dead process, and only then does the monitor sample for the
@@ -49,6 +56,25 @@ def gen_jobs(seed, n):
                 fl=[2 if t == f else 0 for t in range(5)], kids=[[] for _ in range(5)], shapes=[[] for _ in range(5)],
                 inst=[[t, []] for t in range(5)], req=[f] + others, pre={}, ctx=0, sched=[])))
             li += 1
+    # EVERY worker slot is lost to a worker that dies, runnable tasks are queued behind it, task monitor ON and OFF:
+    # a dead worker must free its slot (whoever looks at the process in between), the queued tasks must be started
+    for be, mw, top in (('fork', 1, True), ('spawn', 1, True), ('fork', 2, True), ('fork', 1, False)):
+        nt = mw + 3
+        jobs.append(dict(index=li, top=top, slots_lost=True, case=dict(
+            be=be, mw=mw, cof=1, bust=0, ty=[0] * nt, mp=[None, None, None], ca=[1, 1, 1],
+            fl=[2 if t <= mw else 0 for t in range(nt)], kids=[[] for _ in range(nt)], shapes=[[] for _ in range(nt)],
+            inst=[[t, []] for t in range(nt)], req=list(range(nt)), pre={}, ctx=0, sched=[])))
+        li += 1
+    # chatty tasks: one task per output pattern (dagtasks.OUT_PATTERNS) and a task that depends on all of them
+    for be, top in (('fork', False), ('spawn', True), ('serial', False)):
+        nt = len(dagtasks.OUT_PATTERNS)
+        jobs.append(dict(index=li, top=top, chatty=True, case=dict(
+            be=be, mw=3, cof=1, bust=0, ty=[t % 2 for t in range(nt)], mp=[None, 2, None], ca=[1, 0, 1],
+            fl=[(t if t else 1) << dagtasks.OUT_SHIFT for t in range(nt)],
+            kids=[[] for _ in range(nt - 1)] + [list(range(nt - 1))],
+            shapes=[[] for _ in range(nt - 1)] + [[('slot', i) for i in range(nt - 1)]],
+            inst=[[t, []] for t in range(nt - 1)] + [[nt - 1, list(range(nt - 1))]], req=[nt - 1, 0], pre={}, ctx=0, sched=[])))
+        li += 1
     # very many tasks in one run (queues, counters and displays are exercised far beyond a handful of tasks):
     # WIDE_N independent tasks of two types on really forked workers, displays off and on
     for j, top in enumerate((False, True)):
@@ -116,6 +142,37 @@ def max_overlap(spans):
     return best
 
 
+def hang_idle_capacity(case, rec, d):
+    """C05 on a run that never returned: at the moment the watchdog fired, tasks whose dependencies had all finished
+    had never been started although fewer than max_workers worker processes existed and their type was below its
+    limit. (Only what the record shows: bodies entered/left, loads, which entered workers still exist. A run that
+    is merely slow never gets here - the watchdog is four orders of magnitude above the tasks' durations - and a
+    run that hangs with every runnable task started, or with every slot held by a live worker, is C11's alone.)"""
+    if not case['cof'] or case['be'] == 'serial' or 'entered' not in rec:
+        return []
+    closure, kids, ty = d['closure'], d['kids'], case['ty']
+    entered, left, alive = set(rec['entered']), set(rec['left']), set(rec['alive'])
+    loaded = {int(l.split(' ')[1]) for l in rec['execs'] if l.startswith('L ')}
+    started = entered | loaded
+    # finished, as far as the coordinator can have seen it: loaded, or entered and the worker process is gone (it
+    # reported and exited, or it died). A body that was left but whose worker still exists 40 s later has not reported.
+    finished = loaded | (entered - alive)
+    waiting = []
+    for t in sorted(closure - started):
+        if not (d['cached'](t) or all(k in finished for k in kids[t])):
+            continue
+        L = case['mp'][ty[t]]
+        same = sum(1 for a in alive if ty[a] == ty[t])
+        if L is None or same < L:
+            waiting.append(t)
+    if waiting and len(alive) < d['mw']:
+        dead = sorted(entered - alive - left)
+        return [f'real {case["be"]} run (task monitor {"on" if rec["top"] else "off"}) hung with runnable tasks {waiting} never started '
+                f'although only {len(alive)} of {d["mw"]} worker slots hold a live worker'
+                + (f' (the workers of tasks {dead} died inside run(); their slots were never reused)' if dead else '')]
+    return []
+
+
 def monitor(case, rec):
     d = dagmon.derive(case)
     v = {p: [] for p in ('C01', 'C02', 'C03', 'C04', 'C05', 'C10', 'C11', 'C17')}
@@ -126,6 +183,7 @@ def monitor(case, rec):
         v['C11'].append(f'real {be} run did not terminate ({st}); monitor display {"on" if rec["top"] else "off"}')
         if any(val[t] is None for t in closure) and case['cof']:
             v['C10'].append(f'real {be} run with a failing/dying task never completed: unrelated tasks were not returned')
+        v['C05'] += hang_idle_capacity(case, rec, d)
         return v
     if st.startswith('HARNESS-ERROR'):
         return v
@@ -148,6 +206,11 @@ def monitor(case, rec):
             v['C10' if any_fail else 'C01'].append(f'real {be} run left cache {rec["store"]}, expected {want_store}')
         if rec['results_left']:
             v['C17'].append(f'real {be} run: results {rec["results_left"]} still in the runner when run_tasks returned')
+    if st.startswith('returned') and rec.get('readable_after'):
+        ra = rec['readable_after']
+        v['C17'].append(f'real {be} run: after run_tasks returned, `.result` of {len(ra)} task object(s) still answers instead of '
+                        'raising TaskError: ' + '; '.join(f'task {k} (object {i}) gave {what}' for i, k, what in ra[:4])
+                        + ': results are still held when nothing needs them')
     counts = {}
     for line in rec['execs']:
         parts = line.split(' ')
@@ -173,7 +236,7 @@ def monitor(case, rec):
             v['C04'].append('serial run: two task bodies overlapped')
     for T, L in enumerate(case['mp']):
         if L is not None:
-            ov = max_overlap([s for s in spans if s['type'] == f'T{T}'])
+            ov = max_overlap([s for s in spans if s['type'] in dagtasks.type_names(T)])
             if ov > L:
                 v['C04'].append(f'real {be} run: {ov} tasks of type {T} executing at once, max_parallel={L}')
     return v
@@ -212,6 +275,14 @@ def explore(seed, n, workers=12, timeout=300):
             dist['real_killed_worker'] = dist.get('real_killed_worker', 0) + 1
         if by[r['index']].get('lonely'):
             dist['real_dying_worker_reaped_before_first_monitor_sample'] = dist.get('real_dying_worker_reaped_before_first_monitor_sample', 0) + 1
+        if by[r['index']].get('slots_lost'):
+            dist['real_every_worker_slot_lost_to_a_dying_worker'] = dist.get('real_every_worker_slot_lost_to_a_dying_worker', 0) + 1
+        if any((f >> dagtasks.OUT_SHIFT) & 7 for f in case['fl']):
+            dist['real_printing_tasks'] = dist.get('real_printing_tasks', 0) + 1
+        if any(dagtasks.OUT_PATTERNS[(f >> dagtasks.OUT_SHIFT) & 7] in ('long', 'long-stderr', 'mixed') for f in case['fl']):
+            dist['real_task_prints_40k_chars_on_one_line'] = dist.get('real_task_prints_40k_chars_on_one_line', 0) + 1
+        if any(p is not None for p in (case.get('sub') or [])):
+            dist['real_redecorated_subclass_type'] = dist.get('real_redecorated_subclass_type', 0) + 1
         if by[r['index']].get('wide'):
             dist['real_run_of_%d_tasks' % len(case['ty'])] = 1
         if any(f & 128 for f in case['fl']):
